@@ -136,6 +136,53 @@ def check_pairwise(case):
     return {"nontrivial": trimmed_any >= 1, "classes": [f"pairs={min(n, 4)}", f"trimmed={min(trimmed_any, 3)}"]}
 
 
+def check_subtract(case):
+    """AlignmentSegment.__sub__ as the resolver uses it (a prefix or a suffix of the positions is taken away): what is
+    left is the rest of the run, from its first to its last pair, whatever its scores add up to"""
+    from src.alignment.alignment_position import (AlignedPair, NotAlignedQueryPosition, NotAlignedReferencePosition,
+                                                  ScoredAlignedPair, ScoredNotAlignedPosition)
+    from src.alignment.segments import AlignmentSegment
+    from src.correlation.optical_map import PositionWithSiteId
+    from src.correlation.peak import Peak
+    pos = []
+    for i, (sc, kd) in enumerate(zip(case["scores"], case["kinds"])):
+        p = PositionWithSiteId(i + 1, 1000 * (i + 1))
+        if kd == 0:
+            pos.append(ScoredAlignedPair(AlignedPair(p, p, 0), sc))
+        elif kd == 1:
+            pos.append(ScoredNotAlignedPosition(NotAlignedReferencePosition(p), sc))
+        else:
+            pos.append(ScoredNotAlignedPosition(NotAlignedQueryPosition(p, 0), sc))
+    peak = Peak(77, 30.0)
+    seg = AlignmentSegment.create(list(pos), peak, list(pos))
+    cut = case["cut"]
+    removed, rest = (pos[:cut], pos[cut:]) if case["side"] == "head" else (pos[cut:], pos[:cut])
+    results = [("list", sut(lambda: seg - list(removed)))]
+    if removed:
+        results.append(("segment", sut(lambda: seg - AlignmentSegment.create(list(removed), peak, list(pos)))))
+    want_pairs = [id(p) for p in rest if isinstance(p, AlignedPair)]
+    for how, res in results:
+        got = [id(p) for p in res.positions if isinstance(p, AlignedPair)]
+        req(got == want_pairs, "pair-lost-by-subtraction",
+            f"segment with scores {case['scores']} minus its {case['side']} of {len(removed)} positions ({how}): {len(got)} of the {len(want_pairs)} remaining pairs are left")
+        idx = {id(p): i for i, p in enumerate(pos)}
+        ii = [idx.get(id(p)) for p in res.positions]
+        req(None not in ii and ii == list(range(ii[0], ii[0] + len(ii))) if ii else True, "not-a-contiguous-subrun", f"what is left is not a contiguous run of the segment: {ii}")
+        tot = sum(p.score for p in res.positions)
+        req(abs(res.segmentScore - tot) <= 1e-9, "score-not-recomputed", f"score {res.segmentScore}, sum of what is left {tot}")
+    zero = sum(p.score for p in rest) == 0 and bool(want_pairs)
+    return {"nontrivial": zero, "classes": ["rest-sums-to-zero" if zero else "rest-nonzero", case["side"]]}
+
+
+@st.composite
+def subtract_case(draw):
+    n = draw(st.integers(1, 9))
+    kinds = draw(st.lists(st.sampled_from([0, 0, 0, 1, 2]), min_size=n, max_size=n))
+    scores = [draw(st.sampled_from([1, 2, 3, 1000, 0, 0.0, -1, -2, 500, -500])) if k == 0 else draw(st.sampled_from([0, -1, -2, -250, -500]))
+              for k in kinds]
+    return {"scores": scores, "kinds": kinds, "cut": draw(st.integers(0, n)), "side": draw(st.sampled_from(["head", "tail"]))}
+
+
 def strategy():
     return gen_unit.mixed_case(min_peaks=2, max_peaks=8)
 
@@ -145,6 +192,11 @@ def subchecks(tier):
     subs = [
         Sub("resolve-list", "hyp", check_list, strategy=strategy, examples=16000 if q else 600000, shrink_budget=600,
             required_classes=("chain=3", "trimmed=1")),
+        Sub("swarm", "hyp", check_list, strategy=gen_unit.swarm_case, examples=400 if q else 12000, shrink_budget=100,
+            describe="18-40 seed peaks 25-100 bp apart on a molecule of 1-3 labels: chains of dozens of segments over the same labels"),
+        Sub("subtract-unit", "hyp", check_subtract, strategy=subtract_case, examples=12000 if q else 300000, shrink_budget=800,
+            describe="AlignmentSegment.__sub__ with a prefix / suffix of the positions, scores from a small alphabet (remainders that sum to exactly zero)",
+            required_classes=("rest-sums-to-zero",)),
         Sub("resolve-pairwise", "hyp", check_pairwise, strategy=strategy, examples=8000 if q else 300000, shrink_budget=600),
     ]
     if not q:
